@@ -9,7 +9,7 @@ SCPConnection / SCPPacket code runs, datagram by datagram, against the simulator
 A case is a history: one machine (initial core states, per-fill miss schedule), some binaries, and a sequence
 of calls on ONE controller (so that the nearest-neighbour id and the state left by earlier loads carry
 over).  For every call the driver reports the outcome, every datagram the machine received during the call
-(decoded from the wire by the simulator) with the reply, the chips that missed each fill, the state of every
+(decoded from the wire by the simulator) with the reply, for each fill the chips that missed it and a summary of every core just before it, the state of every
 core afterwards and the controller's nn id."""
 import os
 import shutil
@@ -64,7 +64,7 @@ def run_case(c):
                                    for path, ts in unl.items()]]
             except Exception as e:        # noqa
                 res = ["other", type(e).__name__]
-            out.append(dict(result=res, trace=machine.log[n0:], missed=machine.fill_log[f0:],
+            out.append(dict(result=res, trace=machine.log[n0:], fills=machine.fill_log[f0:],
                             state=machine.snapshot(), nn_id=mc._nn_id))
         return out
     finally:
